@@ -326,13 +326,18 @@ func (i *interpreter) intercept(caller *frame, callpos token.Pos, fn *ssa.Functi
 		return h(i, caller, fn, args), true
 	}
 	switch pkg {
+	case "regexp":
+		if r, ok := i.regexpCall(fn, args); ok {
+			i.hit("regexp." + name + " (native)")
+			return r, true
+		}
 	case "sync/atomic":
 		if r, ok := i.atomicOp(fn, name, args); ok {
 			i.hit("sync/atomic." + name)
 			return r, true
 		}
 	case "strings", "strconv", "unicode", "unicode/utf8", "path", "path/filepath", "net/url", "bytes", "math", "sort", "slices",
-		"encoding/hex", "encoding/base64", "crypto/md5", "crypto/sha256", "html", "regexp", "mime":
+		"encoding/hex", "encoding/base64", "crypto/md5", "crypto/sha256", "html", "mime":
 		if r, ok := i.bridge(fn, full, args); ok {
 			return r, true
 		}
